@@ -13,8 +13,16 @@ import xml.etree.ElementTree as ET
 from .. import core, docgen
 
 _st = {}
-DEPRECATED_TAG_RE = re.compile(r'^\s*\*?\s*(attributes|get\s+value\s+func|ref\s+func|rename\s+to|set\s+value\s+func|transfer|type|'
-                               r'unref\s+func|value|virtual)\s*:', re.I | re.M)
+_DEPRECATED_LINE_RE = re.compile(r'^[^A-Za-z0-9]*(attributes|get\s+value\s+func|ref\s+func|rename\s+to|set\s+value\s+func|transfer|type|'
+                                 r'unref\s+func|value|virtual)\s*:', re.I)
+
+
+class DEPRECATED_TAG_RE:
+    """does any line (split at LINE_BREAK_RE as the parser does) start - after any run of non-alphanumerics, so
+    whatever the parser makes of the ' * ' prefix - with a deprecated tag-style annotation?"""
+    @staticmethod
+    def search(text):
+        return any(_DEPRECATED_LINE_RE.match(l) for l in re.split(r'\r\n|\r|\n', text))
 
 
 def setup_subject():
@@ -362,6 +370,9 @@ def run(args):
     n = int((6000 if args.tier == 'quick' else 400000) * args.scale)
     ncli = int((150 if args.tier == 'quick' else 4000) * args.scale)
     cases = [(args.seed, i) for i in range(n)]
+    cases = core.replay_cases(args, cases)
+    if args.replay and core.REPLAY.get('key') == 'warn-error-mismatch':
+        cases = []
     B = 50
     batches = [cases[k:k + B] for k in range(0, len(cases), B)]
     hf = 0
@@ -380,6 +391,8 @@ def run(args):
     tmpdir = tempfile.mkdtemp(prefix='vt-c11-')
     try:
         ccases = [(args.seed, i, tmpdir) for i in range(ncli)]
+        if args.replay:
+            ccases = [(args.seed, args.replay_case[1], tmpdir)] if core.REPLAY.get('key') == 'warn-error-mismatch' else []
         for _, c, r in core.forkmap(cli_case, ccases, isolated=True, timeout=60):
             chk.evaluations += 1
             if core.is_harness_failure(r) or '_exception' in r:
